@@ -120,9 +120,9 @@ func drawC02(rt *rapid.T) interface{} {
 			pool = append(pool, k)
 		}
 	}
-	nc := rapid.IntRange(2, 6).Draw(rt, "nclients")
+	nc := rapid.IntRange(2, hx.Pick(6, 8)).Draw(rt, "nclients")
 	for i := 0; i < nc; i++ {
-		n := rapid.IntRange(1, 4).Draw(rt, "rounds")
+		n := rapid.IntRange(1, hx.Pick(4, 7)).Draw(rt, "rounds")
 		var rs []klRound
 		for j := 0; j < n; j++ {
 			r := klRound{}
@@ -319,6 +319,7 @@ func TestC02(t *testing.T) {
 		Stubs:       []string{"sync (simsync.Mutex, simsync.RWMutex with Go's writer preference)", "goroutine scheduling (simrt)"},
 		Rule: "scenario = locker variant x shard count x 2-6 clients x 1-4 rounds of Lock/RLock or ordered duplicate-free Locks/RLocks over 2-5 keys, optionally a gated holder of a key nobody else touches (independence) x scheduler knobs/tape; " +
 			"non-trivial = >=2 tasks and >=1 context switch; distinct = distinct event-log hash",
+		Probes: []string{"multi-key-held", "independence-scenario"},
 		Assumptions: []string{"simsync.RWMutex reproduces Go's writer preference (a pending writer blocks new readers; readers queued behind it are admitted on Unlock before the next writer)",
 			"each client holds one lock set at a time; multi-key lists are ascending and duplicate-free (the property's restriction)"},
 	})
